@@ -326,6 +326,15 @@ class UpnpFactory:
         if action_list_el is None:
             return []
 
+        if (
+            self._non_strict
+            and scpd_el.find("./service:serviceStateTable", NS) is None
+        ):
+            # Incomplete SCPD: without a state table no argument can be bound
+            # to its related state variable, degrade to an empty service.
+            _LOGGER.debug("No service state table, ignoring action list")
+            return []
+
         actions = []
         for action_el in action_list_el.findall("./service:action", NS):
             action = self._create_action(action_el, state_variables)
